@@ -266,7 +266,8 @@ func c16Programs(tier string) []*Spec {
 func init() {
 	register(&Family{
 		Property: "C14",
-		Rule: "programs with 1..2 bars carrying shutdown-listener decorators wrapped 0..3 levels deep on both sides (synchronised and plain), notifier on, refresh{auto,manual,none}, decorator lists passed from a reused scratch slice, a render delay still pending; a dedicated thread issues ctx cancel or Shutdown so the explorer places it at every scheduling point within the deviation bound (before any render, mid-cycle, between a completion and its second render). " +
+		Rule: "also: decorators that are shutdown listener and moving-average decorator at once (bare and wrapped twice); " +
+			"programs with 1..2 bars carrying shutdown-listener decorators wrapped 0..3 levels deep on both sides (synchronised and plain), notifier on, refresh{auto,manual,none}, decorator lists passed from a reused scratch slice, a render delay still pending; a dedicated thread issues ctx cancel or Shutdown so the explorer places it at every scheduling point within the deviation bound (before any render, mid-cycle, between a completion and its second render). " +
 			"Oracle once Wait returned: every call returned, late getters show IsRunning=false and exactly one of completed/aborted, each listener notified exactly once, exactly one notifier value without duplicates listing every bar no frame dropped, no library thread alive at quiescence.",
 		Items: func(tier string) []Item {
 			var items []Item
@@ -297,7 +298,9 @@ func init() {
 	})
 	register(&Family{
 		Property: "C16",
-		Rule: "one representative program per exit path (normal completion, abort+drop, ctx cancel, Shutdown, pop mode, notifier on/off, queued successor, ewma update goroutines) x refresh{auto,manual,none}; every schedule within the deviation bound. " +
+		Rule: "also (cross-family slice): the quick-tier programs of the other concurrent families (C03 C04 C05 C06 C12 C13 C14 C15 C17 C18; no pseudo terminals), with no deviation under every base strategy and one deviation under the first, judged by the leak phase alone; " +
+			"also: rows so narrow that a synchronised decorator sits behind one that uses the whole width; " +
+			"one representative program per exit path (normal completion, abort+drop, ctx cancel, Shutdown, pop mode, notifier on/off, queued successor, ewma update goroutines) x refresh{auto,manual,none}; every schedule within the deviation bound. " +
 			"Oracle: after Wait returned and the notifier was read, the remaining threads run to quiescence (idle ticks granted); mcrt knows every thread, so any library-created thread that has not exited is reported with the function it is blocked in.",
 		Items: func(tier string) []Item {
 			var items []Item
